@@ -241,7 +241,23 @@ def F12():
         "exc=%s end=%s nonterminated=%s" % (rec["exception"], rec["end"], rec["nonterminated"])
 
 
-ALL = ["F1", "F2", "F3", "F4", "F5", "F6a", "F6b", "F7", "F8", "F9", "F10", "F12"]
+def F13():
+    """C08 / C01 (was K6): a task of 3 or more steps gave its machine back one step before the finish time it
+    records: ingest machines were held duration-1 steps, and the next task could start on the machine in that
+    very step, so that the task table showed two tasks on one machine during the same timestep."""
+    wf = {"nodes": [{"id": 0, "comp": 40}, {"id": 1, "comp": 40}], "edges": [[0, 1, 0]]}
+    spec = base([ob("a", 1, 4, rate=1, ing=1, wf=wf)],
+                machines=[{"id": "m0", "flops": 10, "bw": 2}], max_ingest=1)
+    rec = runsim.run_spec(spec, max_steps=100)
+    rows = rec["out"]["rows"]
+    held = sum(1 for r in rows if r.get("ingest_resources"))
+    iv = sorted((v["ast"], v["aft"], k) for k, v in rec["out"]["tasks"].items())
+    overlap = [(x, y) for x, y in zip(iv, iv[1:]) if y[0] < x[1]]
+    return held == 4 and not overlap and rec["exception"] is None, \
+        "ingest machine shown in %d rows for a 4-step observation; intervals on m0 %s; overlaps %s" % (held, iv, overlap)
+
+
+ALL = ["F1", "F2", "F3", "F4", "F5", "F6a", "F6b", "F7", "F8", "F9", "F10", "F12", "F13"]
 
 if __name__ == "__main__":
     if "--f9-child" in sys.argv:
